@@ -116,6 +116,12 @@ class C10:
     def _gen_print(self, rng, st, cfg):
         st["n"] += 1
         n = rng.choice([1, 1, 1, 2, 3])
+        if rng.random() < 0.05:
+            # a line wider than the console printed with overflow="ignore", no_wrap: print's own
+            # crop cuts it at the width (with and without a live display alike)
+            W = cfg["width"]
+            word = "".join(rng.choice("0123456789" if rng.random() < 0.6 else "进度漢字") for _ in range(W + rng.randint(1, 12)))
+            return {"t": "text", "lines": ["P%d %s" % (st["n"], word)], "style": rng.choice(STYLES), "ignore": True}
         return {"t": "text", "lines": _text_lines(rng, "P%d" % st["n"], n, cfg["width"]), "style": rng.choice(STYLES)}
 
     def _gen_op(self, rng, kind, cfg, st):
@@ -556,7 +562,10 @@ class Program:
         con = self.console
         if k == "print":
             r = build(op[1])
-            rows = self._print_rows(lambda c: c.print(build(op[1])))
+            pkw = {"overflow": "ignore", "no_wrap": True} if op[1].get("ignore") else {}
+            if pkw:
+                self.probes["prints_cropped_by_print"] = self.probes.get("prints_cropped_by_print", 0) + 1
+            rows = self._print_rows(lambda c: c.print(build(op[1]), **pkw))
             o.tokens.append(op[1]["lines"][0].split(" ")[0])
             if self.started:
                 self.probes["print_while_live"] += 1
@@ -570,9 +579,9 @@ class Program:
             if noeol:
                 if hasattr(r, "end"):
                     r.end = ""  # (a Text carries its own line end; print(end=) applies to strings)
-                con.print(r, end="")
+                con.print(r, end="", **pkw)
             else:
-                con.print(r)
+                con.print(r, **pkw)
             o.end_op()
         elif k == "log":
             rows = self._print_rows(lambda c: c.log(op[1]))
